@@ -481,9 +481,20 @@ def run(check, repo: Repo) -> None:
                          fail_detail="the summed quantity does not derive from `diff`")
     check.floor("loss arms", n_arm, 2)
     # epoch loss = mean of per-batch losses over len(batcher)
+    # the definition of num_batches that REACHES the division (a second, earlier one that is overwritten before the use is dead)
     nb = [x for x in definitions(rec, "num_batches") if isinstance(x, ast.AST)]
-    ok = len(nb) == 1 and unparse(nb[0]) == "len(batcher)" and any(
-        isinstance(n, ast.Assign) and unparse(n.value) == "total_loss / num_batches" for n in ast.walk(rec))
+    divs = [n for n in ast.walk(rec) if isinstance(n, ast.Assign) and unparse(n.value) == "total_loss / num_batches"]
+    if len(nb) > 1 and divs:
+        rc_ = CFG(rec)
+        dn_ = rc_.node_containing(divs[0])
+        live = []
+        for x in nb:
+            xn_ = rc_.node_containing(x)
+            others_ = [m for y in nb if y is not x for m in rc_.node_containing(y)]
+            if xn_ and dn_ and dn_[0] in rc_.reachable_from(xn_[0], avoid=others_):
+                live.append(x)
+        nb = live
+    ok = len(nb) == 1 and unparse(nb[0]) == "len(batcher)" and bool(divs)
     check.decide(ok, "C09-R5", "Ptychography.reconstruct: epoch loss = Σ batch losses / len(batcher)", "", pmod.line(rec),
                  fail_detail="the epoch loss is not divided by len(batcher)")
     loops = [n for n in ast.walk(rec) if isinstance(n, ast.For) and unparse(n.iter) == "batcher"]
